@@ -90,6 +90,10 @@ ORGANICS = [
     "C[C@H](N)c1ccccc1", "C/C=C/C=C\\C", "C=C", "C#C", "O=C=O", "N#CC", "C[C@@H]1C[C@H]1F", "C1=CCCCC1", "OC(=O)/C=C/C(=O)O",
     "OC(=O)/C=C\\C(=O)O", "C[P@](=O)(O)CC", "CC(C)=C", "ClC=C(Cl)Cl", "O=C1C=CC(=O)C=C1", "c1ccc2ccccc2c1", "C1CCC2CCCCC2C1",
     "C[C@H]1CCCO1", "CN(C)C=O", "CC(=O)/C=C/c1ccccc1", "[H]/N=C/C", "[H]/N=C\\C", "C/N=C/C",
+    # tri- / tetra-substituted stereo double bonds (atom 0 as the lower ranked substituent), small-ring alkenes with wide
+    # exocyclic angles, oximes / azo compounds
+    "C/C(Cl)=C/C", "C/C(CC)=C/C", "F/C(Cl)=C(/Br)I", "Cl/C(C)=C/C", "C/C=C(/C)Cl", "CC1=C(C)C1", "FC1=C(Cl)C1", "CC1=C(C)C1(C)C",
+    "C=C1CC1", "C1=CCC1", "C/C=N/O", "C/C=N\\O", "C/N=N/C", "C/N=N\\C", "Cc1cccnc1", "F/C=C(/Cl)Br", "C(/F)(Cl)=C(/F)Cl",
 ]
 
 
